@@ -52,7 +52,7 @@ def valid_tokens(rng, v):
     out = [('"%d"' % v, "dec-string"), ('"0x%x"' % v, "hex-string"), ('"0x%X"' % v, "HEX-string"), ('"0x%064x"' % v, "hex-padded")]
     if v < (1 << 64):
         out.append((str(v), "json-int"))
-    if v < 10 ** 15:  # float literals with more than 15 significant digits belong to the known finding K1 (see K1 list)
+    if v < 10 ** 14:  # float literals whose written significand exceeds 15 digits belong to the known finding K1 (see K1 list)
         out += [("%d.0" % v, "float"), ("%de0" % v, "float-exp"), ("%d.0e0" % v, "float-exp")]
         s = str(v)
         if len(s) > 1:
@@ -69,7 +69,7 @@ MALFORMED = ["-1", "-1.0", "-0.5", "-1e0", '"-1"', '"-0x1"', "1.5", "0.5", "1e-1
 MAY = [('"0b101"', 5), ('"0o17"', 15), ('"+5"', 5), ('"+0x10"', 16), ('"+0b11"', 3), ('"007"', 7), ('"0x0000"', 0), ('"+0"', 0), ('"0b0"', 0)]
 K1 = ["1.00000000000000001", "4503599627370497.5", "9007199254740991.0", "0.99999999999999999999", "2.0000000000000000001e0",
       "1234567890123456.7", "3.000000000000000000000000001", "72057594037927935.9e-1", "1e0000000000000000000000", "100000000000000000000e-20",
-      "12345678901234567.0e-1", "9007199254740990.9999"]
+      "12345678901234567.0e-1", "9007199254740990.9999", "245099948978826.000e0", "100000000000000000000e-20"]
 
 
 def exact_of_token(tok):
